@@ -54,6 +54,8 @@ pub struct ExprCfg {
     pub lazy_hazards: bool,
     /// shift counts from the boundary set {-1, 0, 1, 63, 64, 65, 127, MIN}
     pub odd_shifts: bool,
+    /// every operand that is itself an operation is parenthesised (precedence plays no role)
+    pub full_parens: bool,
 }
 
 #[derive(Clone, Debug)]
@@ -100,6 +102,8 @@ pub struct Cfg {
     pub shared_cols: bool,
     /// virtual signal expressions may use random
     pub virtual_random: bool,
+    /// variables and loop counters may be named like signals (Q, R, IO are in the pools)
+    pub vars_like_signals: bool,
 }
 
 impl Cfg {
@@ -144,6 +148,7 @@ impl Cfg {
                 bad_random_bounds: false,
                 lazy_hazards: false,
                 odd_shifts: false,
+                full_parens: false,
             },
             counter_rebind: false,
             maybe_unbound_refs: false,
@@ -152,6 +157,7 @@ impl Cfg {
             device_whiles: true,
             shared_cols: false,
             virtual_random: false,
+            vars_like_signals: true,
         }
     }
 }
@@ -520,6 +526,34 @@ fn nonzero(e: Expr) -> Expr {
 }
 
 pub fn gen_expr(ch: &mut Ch, depth: u32, env: &ExprEnv) -> Expr {
+    let e = gen_expr_inner(ch, depth, env);
+    if env.cfg.full_parens {
+        fully_parenthesise(e)
+    } else {
+        e
+    }
+}
+
+/// wrap every operand that is itself an operation in redundant parentheses
+pub fn fully_parenthesise(e: Expr) -> Expr {
+    fn wrap(e: Expr) -> Expr {
+        let e = fully_parenthesise(e);
+        match e {
+            Expr::Bin(..) | Expr::Un(..) => Expr::Group(Box::new(e)),
+            other => other,
+        }
+    }
+    match e {
+        Expr::Bin(op, a, b) => Expr::Bin(op, Box::new(wrap(*a)), Box::new(wrap(*b))),
+        Expr::Un(op, a) => Expr::Un(op, Box::new(wrap(*a))),
+        Expr::Ite(c, a, b) => Expr::Ite(Box::new(fully_parenthesise(*c)), Box::new(fully_parenthesise(*a)), Box::new(fully_parenthesise(*b))),
+        Expr::Random(a) => Expr::Random(Box::new(fully_parenthesise(*a))),
+        Expr::Group(a) => Expr::Group(Box::new(fully_parenthesise(*a))),
+        other => other,
+    }
+}
+
+fn gen_expr_inner(ch: &mut Ch, depth: u32, env: &ExprEnv) -> Expr {
     let cfg = env.cfg;
     if depth == 0 {
         return gen_leaf(ch, env);
@@ -532,8 +566,8 @@ pub fn gen_expr(ch: &mut Ch, depth: u32, env: &ExprEnv) -> Expr {
         0 => gen_leaf(ch, env),
         1 => {
             let op = *ch.choose(&ALL_BINOPS);
-            let a = gen_expr(ch, depth - 1, env);
-            let mut b = gen_expr(ch, depth - 1, env);
+            let a = gen_expr_inner(ch, depth - 1, env);
+            let mut b = gen_expr_inner(ch, depth - 1, env);
             if cfg.total && matches!(op, BinOp::Div | BinOp::Rem) {
                 b = nonzero(b);
             }
@@ -544,7 +578,7 @@ pub fn gen_expr(ch: &mut Ch, depth: u32, env: &ExprEnv) -> Expr {
         }
         2 => {
             let op = *ch.choose(&[UnOp::Neg, UnOp::Not, UnOp::BitNot]);
-            Expr::un(op, gen_expr(ch, depth - 1, env))
+            Expr::un(op, gen_expr_inner(ch, depth - 1, env))
         }
         3 => {
             if cfg.lazy_hazards && ch.chance(1, 2) {
@@ -555,7 +589,7 @@ pub fn gen_expr(ch: &mut Ch, depth: u32, env: &ExprEnv) -> Expr {
                     // a valid bound: an eager ite would draw (and nothing else would show it)
                     _ => Expr::Random(Box::new(Expr::lit(if ch.chance(1, 2) { 5 } else { 0 }))),
                 };
-                let live = gen_expr(ch, depth - 1, env);
+                let live = gen_expr_inner(ch, depth - 1, env);
                 return if ch.chance(1, 2) {
                     Expr::Ite(Box::new(Expr::lit(0)), Box::new(haz), Box::new(live))
                 } else {
@@ -563,12 +597,12 @@ pub fn gen_expr(ch: &mut Ch, depth: u32, env: &ExprEnv) -> Expr {
                     Expr::Ite(Box::new(c), Box::new(live), Box::new(haz))
                 };
             }
-            let c = gen_expr(ch, depth - 1, env);
-            let a = gen_expr(ch, depth - 1, env);
-            let b = gen_expr(ch, depth - 1, env);
+            let c = gen_expr_inner(ch, depth - 1, env);
+            let a = gen_expr_inner(ch, depth - 1, env);
+            let b = gen_expr_inner(ch, depth - 1, env);
             Expr::Ite(Box::new(c), Box::new(a), Box::new(b))
         }
-        4 => Expr::Group(Box::new(gen_expr(ch, depth - 1, env))),
+        4 => Expr::Group(Box::new(gen_expr_inner(ch, depth - 1, env))),
         5 => Expr::Random(Box::new(gen_random_bound(ch, depth - 1, env))),
         6 => {
             let a = gen_leaf(ch, env);
@@ -579,10 +613,10 @@ pub fn gen_expr(ch: &mut Ch, depth: u32, env: &ExprEnv) -> Expr {
             // a chain of equal-precedence (or neighbouring) operators, built left-assoc
             let g = CHAIN_GROUPS[ch.upto(CHAIN_GROUPS.len())];
             let n = 2 + ch.upto(3);
-            let mut e = gen_expr(ch, depth - 1, env);
+            let mut e = gen_expr_inner(ch, depth - 1, env);
             for _ in 0..n {
                 let op = *ch.choose(g);
-                let mut b = gen_expr(ch, depth.saturating_sub(2), env);
+                let mut b = gen_expr_inner(ch, depth.saturating_sub(2), env);
                 if cfg.total && matches!(op, BinOp::Div | BinOp::Rem) {
                     b = nonzero(b);
                 }
@@ -632,6 +666,7 @@ struct PGen<'a> {
     next_while: usize,
     pending_declares: Vec<(String, Expr)>,
     stmts_left: usize,
+    signal_names: Vec<String>,
 }
 
 pub fn is_ident(s: &str) -> bool {
@@ -823,6 +858,9 @@ impl<'a> PGen<'a> {
     fn let_stmt(&mut self, ch: &mut Ch) -> Stmt {
         let forbidden = self.scope.innermost_counter().map(|s| s.to_string());
         let mut name = VAR_NAMES[ch.upto(VAR_NAMES.len())].to_string();
+        if !self.cfg.vars_like_signals && self.signal_names.contains(&name) {
+            name = "s".to_string();
+        }
         if Some(&name) == forbidden.as_ref() {
             name = "s".to_string();
             if Some(&name) == forbidden.as_ref() {
@@ -895,7 +933,10 @@ impl<'a> PGen<'a> {
                 }
                 2 => {
                     let (bound, _) = self.bound(ch);
-                    let v = COUNTER_NAMES[ch.upto(COUNTER_NAMES.len())].to_string();
+                    let mut v = COUNTER_NAMES[ch.upto(COUNTER_NAMES.len())].to_string();
+                    if !self.cfg.vars_like_signals && self.signal_names.contains(&v) {
+                        v = "k".to_string();
+                    }
                     self.scope.frames.push(SFrame {
                         vars: vec![(v.clone(), true)],
                         counter: Some(v.clone()),
@@ -1024,6 +1065,7 @@ pub fn gen_case_with(ch: &mut Ch, cfg: &Cfg, sigs: Vec<Sig>) -> Built {
         next_while: 0,
         pending_declares: vec![],
         stmts_left: 40,
+        signal_names: sigs.iter().map(|s| s.name.clone()).collect(),
     };
     for (n, _) in &virtuals {
         // expressions over output-capable signals only, no variables
@@ -1244,4 +1286,38 @@ pub fn feats(b: &Built) -> Feats {
         }
     });
     f
+}
+
+/// Parenthesise every operand of every expression of a program (see ExprCfg::full_parens).
+pub fn parenthesise_program(b: &mut [Stmt]) {
+    fn ex(e: &mut Expr) {
+        let old = std::mem::replace(e, Expr::lit(0));
+        *e = fully_parenthesise(old);
+    }
+    fn entries(es: &mut [Entry]) {
+        for en in es {
+            if let Entry::Paren(e) | Entry::Bits(_, e) = en {
+                ex(e)
+            }
+        }
+    }
+    for s in b {
+        match s {
+            Stmt::Let(_, e) | Stmt::Declare(_, e) => ex(e),
+            Stmt::Row(_, es) => entries(es),
+            Stmt::Repeat(bound, _, es) => {
+                ex(bound);
+                entries(es)
+            }
+            Stmt::Loop(_, bound, inner) => {
+                ex(bound);
+                parenthesise_program(inner)
+            }
+            Stmt::While(c, inner) => {
+                ex(c);
+                parenthesise_program(inner)
+            }
+            Stmt::ResetRandom => {}
+        }
+    }
 }
